@@ -10,6 +10,41 @@ BASE_NOTE = ("Trusted: Lean 4.33 kernel; axioms propext/Classical.choice/Quot.so
              "the Lean statements; the translator(s) and the correspondence harness named in the technique; compilers, libc, the OS. ")
 
 CLAIMS = {
+    "C01": dict(
+        level="proof", design="DESIGN.md section 3, C01",
+        technique="Lean 4 proofs (core Rat) that the link-wise pair generation is a permutation of the brute-force minimum-image set, for every grid with >= 2 cells per direction and all periodicities; tables and per-direction kernels of addPair/cellDist regenerated from cell.h/cell.cpp/manager_cell.h and proved equal to the functions of the theorems (bridge); correspondence of every cell, link and pair list with the real binary; brute-force oracle on the dumps",
+        text="C01_exact/sound/nodup/complete: for every grid (incl. exactly two cells, where two links join the same cells), cutoff <= cell width, and registered particle placement, the generated pairs are exactly the unordered pairs with minimum-image separation below the colour pair's cutoff, each once, with vector r_first - r_second - k L and acts-on flags = free flags; C01_eps states the 2 eps sliver; C01_gen_tables_ok and C01_bridge_* tie offsets, OFFSET2NEIGHBOR, INV_NEIGHBOR, addPair, cellDist and the cutoff test to the source; the real pair lists equal the model's and the brute-force set on every explored state.",
+        note=BASE_NOTE + "The general theorem is about the canonical link list of Sympler/Geom.lean; that the model of cellSubdivide builds such a list is kernel-checked (decide) for 2x2x2 and 3x2x2 grids in all periodicities and evaluated natively for every grid of the correspondence. Hypothesis `Registered` is C09's invariant. Not modelled: inlets/outlets, smartCells, several regions; rounding at rc +- ulp."),
+    "C09": dict(
+        level="proof", design="DESIGN.md section 3, C09",
+        technique="Lean 4 invariant proof over ALL histories of move/commit/erase operations of a statement-level model of Cell::updatePositions / checkNewPosition / commitInjections / activate / deactivate (doubly linked active lists, link counters); tables and leave-offset / re-entry kernels regenerated from the source; correspondence of the complete cell/link state with the real binary after every step; positional oracle",
+        text="C09_inv_reachable: in every reachable state each particle is in exactly one list, counters equal list lengths, the active-cell list holds exactly the occupied cells once, link counters equal their active ends and the active-link list holds exactly the links with two occupied cells; C09_iteration_visits_all covers self-removal during the sweep; C09_pos_reachable: every particle lies in its cell; C09_wrap_exact: crossing periodic faces shifts by exactly -+L in the crossed directions; C09_count_conserved: no particle is lost in a periodic or wall-closed box.",
+        note=BASE_NOTE + "Per-step displacement below one cell (else model and code both stop with PARTICLEFLEWTOOFAR, compared). g_geom_eps slack is a model parameter (1e-10 as a rational). Not modelled: inlet cells, particle creation during the run."),
+    "C04": dict(
+        level="proof", design="DESIGN.md section 3, C04",
+        technique="Lean 4 proofs about the shared one-step model Sympler/Dyn.lean (pair kernel with acts-on guards, own cutoff, symmetry factor): reciprocity, free-only, own cutoff, momentum invariance for every step count; correspondence of both force buffers of every particle with the real binary after every step in the exact-arithmetic regime; momentum oracle on the real runs",
+        text="C04_reciprocal(_op): the contribution to the second partner is symmetry * (factor_j o F) and equals minus the first under the symmetry premise; C04_free_only: nothing is accumulated on a frozen particle; C04_own_cutoff(_exact): a module contributes iff the pair is inside ITS cutoff even when the list cutoff is larger; C04_momentum: with reciprocal pair forces, all free, fully periodic, total momentum is invariant under step for all step counts. Real force buffers equal the model's exactly on every explored scenario.",
+        note=BASE_NOTE + "Hand-written model of the kernel shape shared by FPairVels/FPairScalar/FPairVector; the tie is the correspondence. DPD/LJ/thermostat kernels (sqrt, random numbers) are not instantiated by scenarios. Neighbour relation in this model is the brute-force set (C01/C02 connect it to the lists)."),
+    "C05": dict(
+        level="proof", design="DESIGN.md section 3, C05 (PARTIAL: order of convergence)",
+        technique="Lean 4 proofs about the shared one-step model (Controller::integrate order, two force buffers with index flip, protect/unprotect of tag forces, clear of non-persistent data, velocity-Verlet with lambda, Euler integrators): force freshness by induction over steps, textbook velocity-Verlet map, lambda independence, exact reversibility, exact constant-acceleration and constant-rate solutions; exact correspondence of r, v, forces, integrated quantities with the real binary; analytic / metamorphic oracles",
+        text="C05_force_fresh(_run): after every step the current force buffer holds each registered force exactly once, evaluated on the updated state, nothing surviving from earlier steps; C05_vv_textbook / lambda_independent / vv_reversible / vv_const_accel / const_forces / euler_const_rate as named. PARTIAL: second-order convergence is the classical theorem about the textbook map to which C05_vv_textbook reduces the code; it is not proved in Lean.",
+        note=BASE_NOTE + "Hand-written model; the tie is the exact correspondence. Walls are excluded here (C08). Beyond the exact horizon states are compared approximately and never counted."),
+    "C07": dict(
+        level="proof", design="DESIGN.md section 3, C07",
+        technique="Lean 4 proofs about the shared one-step model: a pair-summed symbol equals the sum over all partners (free or frozen) inside the module's own cutoff at the current minimum-image positions, independent of its previous value; exact correspondence of every symbol with the real binary after every step; brute-force re-summation oracle",
+        text="C07_sum / C07_current_positions / C07_memoryless / C07_own_cutoff for every module list of the modelled kinds; real values equal the model's exactly on every explored scenario (several calculators with different cutoffs sharing one list, free/frozen partners, several steps).",
+        note=BASE_NOTE + "Hand-written model; the tie is the correspondence. ValCalculatorRho with kernels (sqrt) is not instantiated. The list is the brute-force set in this model (C01/C02)."),
+    "C10": dict(
+        level="proof", design="DESIGN.md section 3, C10",
+        technique="Lean 4 proofs about the shared one-step model: step leaves position, velocity, colour, flag and every tag attribute of every frozen particle unchanged and their number constant, for every module list of the modelled kinds; frozen partners do contribute to free particles; exact correspondence of every field of every frozen particle; snapshot oracle on the real runs",
+        text="C10_frozen_fixed, C10_frozen_count, C10_felt; on the real binary every frozen particle is bit-identical to its initial state after every step of every explored scenario while contributing to the sums and forces of free partners.",
+        note=BASE_NOTE + "Force accumulators are scratch storage outside the property's state (ConnectBasic writes both bond partners unguarded; recorded in DESIGN.md). Module kinds not instantiated by the scenarios are not covered."),
+    "C18": dict(
+        level="proof", design="DESIGN.md section 3, C18 (PARTIAL: decimal rounding)",
+        technique="Lean 4 proofs about a token-level model of Phase::writeRestartFile and ParticleCreatorFile (readNext with the character class regenerated from pc_file.cpp, %g formatting on the exact domain, header/column mapping): tokens never split, exact-domain round trip is the identity, columns restore every persistent attribute to the right particle; correspondence of the real file text and of the system the real reader holds with the model; write/read oracle A vs B",
+        text="C18_tokens(_alphabet), C18_exact_domain(_number), C18_columns(_identity/_count/_attr), C18_partial, witnesses for the class without '+'. PARTIAL: six significant digits for arbitrary doubles is libc's rounding (trusted); on the exact domain the real round trip is compared for equality.",
+        note=BASE_NOTE + "The model reads the correctly rounded decimals (Python) of run A's doubles; force accumulator columns are zeroed by every run and not compared."),
     "C15": dict(
         level="proof", design="DESIGN.md section 3, C15",
         technique="Lean 4 refinement proof of a statement-by-statement SmartList model to an abstract list (all op sequences, all chunk sizes 2^k); macros regenerated from smart_list.h by a translator; differential correspondence model vs real header (bounded-exhaustive + random + production chunk size, ASan/UBSan)",
